@@ -38,6 +38,7 @@ func runC09(c *core.Ctx) {
 	c.Rule("R05.1", "healthy verdict only under index-in-range and strong-hash equality (shared: the safekeeper's verdicts are the block validator's)")
 	ruleHealthyVerdict(c, woundKinds(c.P), true)
 	ruleHashGroupsHaveTheirLength(c, "R18.7")
+	ruleNoSharedPackageState(c)
 	read := c.P.Fn("pwr", "safeKeeperReader.Read")
 	seek := c.P.Fn("pwr", "safeKeeperReader.Seek")
 	vb := c.P.Fn("pwr", "safeKeeper.validateBlock")
